@@ -10,7 +10,6 @@
 package vsched
 
 import (
-	"bytes"
 	"fmt"
 	"reflect"
 	"runtime"
@@ -126,6 +125,7 @@ type scheduler struct {
 	timers  []*Timer
 	timerSeq int
 	costFn   func(label string, option int) int
+	quiet    bool // Quiet(true): decisions are taken by default and offer no alternatives to the explorer
 }
 
 var S = &scheduler{}
@@ -133,15 +133,7 @@ var S = &scheduler{}
 // epoch of the virtual clock.
 var Epoch = time.Date(2020, 1, 1, 0, 0, 0, 0, time.UTC)
 
-func getgid() int64 {
-	var buf [64]byte
-	n := runtime.Stack(buf[:], false)
-	// "goroutine 123 ["
-	b := buf[10:n]
-	i := bytes.IndexByte(b, ' ')
-	id, _ := strconv.ParseInt(string(b[:i]), 10, 64)
-	return id
-}
+// getgid (identity of the calling goroutine): see gid_fast.go
 
 // cur returns the calling task, or nil when the caller is not a registered task of an active
 // exploration (pass-through mode).
@@ -393,6 +385,9 @@ func (s *scheduler) alternatives(arriving *task) []alt {
 			if t != arriving && curEnabled {
 				c++ // switching away from a runnable task is a preemption
 			}
+			if !curEnabled && len(alts) > 0 {
+				c += BlockedSwitchCost // delay bounding (0 = off: choices at blocking points are free)
+			}
 			mine[i].cost = c
 		}
 		alts = append(alts, mine...)
@@ -425,7 +420,15 @@ func (s *scheduler) schedule(t *task) {
 			s.mu.Unlock()
 			runtime.Goexit()
 		}
-		alts := s.alternatives(t)
+		var alts []alt
+		if s.quiet {
+			// no exploration here: only the default alternative is needed (see quiesce.go)
+			if a, ok := s.firstAlternative(t); ok {
+				alts = []alt{a}
+			}
+		} else {
+			alts = s.alternatives(t)
+		}
 		if len(alts) == 0 {
 			// nothing enabled: advance the virtual clock if a timer or sleeper is pending
 			if s.advanceClock() {
@@ -468,6 +471,9 @@ func (s *scheduler) schedule(t *task) {
 		costs := make([]int, len(alts))
 		for i := range alts {
 			costs[i] = alts[i].cost
+			if s.quiet && i != 0 {
+				costs[i] = quietCost
+			}
 		}
 		a := alts[idx]
 		tid := -1
@@ -701,6 +707,9 @@ func Choice(n int, label string, costs []int) int {
 		if costs != nil {
 			cs[i] = costs[i]
 		}
+		if s.quiet {
+			cs[i] = quietCost
+		}
 	}
 	lab := fmt.Sprintf("t%d:choice:%s=%d", t.id, label, idx)
 	s.points = append(s.points, Point{Task: t.id, NAlts: n, Chosen: idx, Costs: cs, Label: lab, Hash: s.hash})
@@ -779,6 +788,9 @@ func lessValue(a, b reflect.Value) bool {
 			}
 		}
 		return false
+	case reflect.Chan:
+		// registration order (NoteChan, inserted by verifgen -maporder at map insertions)
+		return chanLess(a, b)
 	case reflect.Ptr, reflect.Interface:
 		// no stable order exists for pointers: order by the printed value of what they point to
 		return fmt.Sprintf("%v", a) < fmt.Sprintf("%v", b)
